@@ -614,6 +614,7 @@ pub fn run(args: &Args) -> i32 {
     }
     if let Some(v) = violation {
         ev.violations = 1;
+        ev.violation_sample(&v);
         ev.write();
         report_violation("C14", &v);
         return 1;
